@@ -26,14 +26,14 @@ type Mutex struct {
 //
 //go:norace
 func (m *Mutex) SimLabel() string {
-	if o := m.owner; o != nil && m.held.Load() != 0 {
+	if o := m.owner; o != nil && ql32(&m.held) != 0 {
 		return "mutex held by " + o.String()
 	}
 	return "mutex"
 }
 
 //go:norace
-func (m *Mutex) free(time.Time) (bool, time.Time) { return m.held.Load() == 0, time.Time{} }
+func (m *Mutex) free(time.Time) (bool, time.Time) { return ql32(&m.held) == 0, time.Time{} }
 
 // Lock locks m.
 //
@@ -42,11 +42,11 @@ func (m *Mutex) Lock() {
 	t := simrt.PointT(simrt.KLock, m, m.free)
 	if t == nil {
 		m.real.Lock()
-		m.held.Store(1)
+		qs32(&m.held, 1)
 		return
 	}
 	m.owner = t
-	m.held.Store(1)
+	qs32(&m.held, 1)
 	simrt.RaceAcquire(unsafe.Pointer(m))
 }
 
@@ -56,15 +56,15 @@ func (m *Mutex) Lock() {
 func (m *Mutex) TryLock() bool {
 	if !simrt.Point(simrt.KLock, m, nil) {
 		if m.real.TryLock() {
-			m.held.Store(1)
+			qs32(&m.held, 1)
 			return true
 		}
 		return false
 	}
-	if m.held.Load() != 0 {
+	if ql32(&m.held) != 0 {
 		return false
 	}
-	m.held.Store(1)
+	qs32(&m.held, 1)
 	simrt.RaceAcquire(unsafe.Pointer(m))
 	return true
 }
@@ -74,15 +74,15 @@ func (m *Mutex) TryLock() bool {
 //go:norace
 func (m *Mutex) Unlock() {
 	if !simrt.Point(simrt.KUnlock, m, nil) {
-		m.held.Store(0)
+		qs32(&m.held, 0)
 		m.real.Unlock()
 		return
 	}
-	if m.held.Load() == 0 {
+	if ql32(&m.held) == 0 {
 		panic("sync: unlock of unlocked mutex")
 	}
 	simrt.RaceRelease(unsafe.Pointer(m))
-	m.held.Store(0)
+	qs32(&m.held, 0)
 }
 
 // RWMutex replaces sync.RWMutex (writer preference as in the real one: a
@@ -105,15 +105,15 @@ func (m *RWMutex) SimLabel() string { return "rwmutex" }
 func (m *RWMutex) Lock() {
 	if simrt.Active() == nil {
 		m.real.Lock()
-		m.writer.Store(1)
+		qs32(&m.writer, 1)
 		return
 	}
-	m.pendingW.Add(1)
+	qa32(&m.pendingW, 1)
 	simrt.Point(simrt.KLock, m, func(time.Time) (bool, time.Time) {
-		return m.writer.Load() == 0 && m.readers.Load() == 0, time.Time{}
+		return ql32(&m.writer) == 0 && ql32(&m.readers) == 0, time.Time{}
 	})
-	m.pendingW.Add(-1)
-	m.writer.Store(1)
+	qa32(&m.pendingW, -1)
+	qs32(&m.writer, 1)
 	simrt.RaceAcquire(unsafe.Pointer(m))
 	simrt.RaceAcquire(unsafe.Pointer(&m.readers))
 }
@@ -123,15 +123,15 @@ func (m *RWMutex) Lock() {
 //go:norace
 func (m *RWMutex) Unlock() {
 	if !simrt.Point(simrt.KUnlock, m, nil) {
-		m.writer.Store(0)
+		qs32(&m.writer, 0)
 		m.real.Unlock()
 		return
 	}
-	if m.writer.Load() == 0 {
+	if ql32(&m.writer) == 0 {
 		panic("sync: Unlock of unlocked RWMutex")
 	}
 	simrt.RaceRelease(unsafe.Pointer(m))
-	m.writer.Store(0)
+	qs32(&m.writer, 0)
 }
 
 // RLock locks for reading.
@@ -140,13 +140,13 @@ func (m *RWMutex) Unlock() {
 func (m *RWMutex) RLock() {
 	if simrt.Active() == nil {
 		m.real.RLock()
-		m.readers.Add(1)
+		qa32(&m.readers, 1)
 		return
 	}
 	simrt.Point(simrt.KRLock, m, func(time.Time) (bool, time.Time) {
-		return m.writer.Load() == 0 && m.pendingW.Load() == 0, time.Time{}
+		return ql32(&m.writer) == 0 && ql32(&m.pendingW) == 0, time.Time{}
 	})
-	m.readers.Add(1)
+	qa32(&m.readers, 1)
 	simrt.RaceAcquire(unsafe.Pointer(m))
 }
 
@@ -155,15 +155,15 @@ func (m *RWMutex) RLock() {
 //go:norace
 func (m *RWMutex) RUnlock() {
 	if !simrt.Point(simrt.KRUnlock, m, nil) {
-		m.readers.Add(-1)
+		qa32(&m.readers, -1)
 		m.real.RUnlock()
 		return
 	}
-	if m.readers.Load() <= 0 {
+	if ql32(&m.readers) <= 0 {
 		panic("sync: RUnlock of unlocked RWMutex")
 	}
 	simrt.RaceReleaseMerge(unsafe.Pointer(&m.readers))
-	m.readers.Add(-1)
+	qa32(&m.readers, -1)
 }
 
 // RLocker returns a Locker for the read side.
@@ -204,7 +204,7 @@ func (wg *WaitGroup) Add(delta int) { wg.add(delta) }
 func (wg *WaitGroup) add(delta int) {
 	if !simrt.Point(simrt.KWgAdd, wg, nil) {
 		wg.mu.Lock()
-		v := wg.n.Add(int64(delta))
+		v := qa64(&wg.n, int64(delta))
 		if v < 0 {
 			wg.mu.Unlock()
 			panic("sync: negative WaitGroup counter")
@@ -218,7 +218,7 @@ func (wg *WaitGroup) add(delta int) {
 	if delta < 0 {
 		simrt.RaceReleaseMerge(unsafe.Pointer(wg))
 	}
-	v := wg.n.Add(int64(delta))
+	v := qa64(&wg.n, int64(delta))
 	if v < 0 {
 		panic("sync: negative WaitGroup counter")
 	}
@@ -254,19 +254,19 @@ func (wg *WaitGroup) wait() {
 		if wg.cond == nil {
 			wg.cond = sync.NewCond(&wg.mu)
 		}
-		for wg.n.Load() != 0 {
+		for ql64(&wg.n) != 0 {
 			wg.cond.Wait()
 		}
 		wg.mu.Unlock()
 		return
 	}
-	if wg.n.Load() != 0 && wg.waiters.Load() == 0 {
+	if ql64(&wg.n) != 0 && ql32(&wg.waiters) == 0 {
 		// as in the real WaitGroup under -race: a Wait that has to wait is modelled as a write (first waiter only)
 		wgFirstWait(unsafe.Pointer(&wg.sema))
 	}
-	wg.waiters.Add(1)
-	simrt.Point(simrt.KWgWait, wg, func(time.Time) (bool, time.Time) { return wg.n.Load() == 0, time.Time{} })
-	wg.waiters.Add(-1)
+	qa32(&wg.waiters, 1)
+	simrt.Point(simrt.KWgWait, wg, func(time.Time) (bool, time.Time) { return ql64(&wg.n) == 0, time.Time{} })
+	qa32(&wg.waiters, -1)
 	simrt.RaceAcquire(unsafe.Pointer(wg))
 }
 
@@ -283,23 +283,23 @@ type Once struct {
 func (o *Once) Do(f func()) {
 	if simrt.Active() == nil {
 		o.real.Do(func() {
-			if o.done.Load() == 0 {
-				defer o.done.Store(1)
+			if ql32(&o.done) == 0 {
+				defer qs32(&o.done, 1)
 				f()
 			}
 		})
 		return
 	}
-	if o.done.Load() == 1 {
+	if ql32(&o.done) == 1 {
 		simrt.RaceAcquire(unsafe.Pointer(o))
 		return
 	}
 	o.m.Lock()
 	defer o.m.Unlock()
-	if o.done.Load() == 0 {
+	if ql32(&o.done) == 0 {
 		defer func() {
 			simrt.RaceRelease(unsafe.Pointer(o))
-			o.done.Store(1)
+			qs32(&o.done, 1)
 		}()
 		f()
 	}
@@ -348,3 +348,53 @@ type Cond = sync.Cond
 //
 //go:norace
 func NewCond(l Locker) *Cond { return sync.NewCond(l) }
+
+// The state words of the sim-aware primitives are real atomics (outsider goroutines use the primitives
+// without the scheduler token), but the race detector must not see them: an atomic read-modify-write is an
+// acquire and a release, so e.g. the counter of a WaitGroup would order every Add and Done of all its users,
+// which the real WaitGroup (it disables the detector around its state word) does not.  The happens-before
+// edges a primitive does publish are the explicit simrt.RaceAcquire/Release calls, outside these sections.
+
+//go:norace
+func ql32(p *atomic.Int32) int32 { simrt.QuietBegin(); v := p.Load(); simrt.QuietEnd(); return v }
+
+//go:norace
+func qs32(p *atomic.Int32, v int32) { simrt.QuietBegin(); p.Store(v); simrt.QuietEnd() }
+
+//go:norace
+func qa32(p *atomic.Int32, d int32) int32 {
+	simrt.QuietBegin()
+	v := p.Add(d)
+	simrt.QuietEnd()
+	return v
+}
+
+//go:norace
+func ql64(p *atomic.Int64) int64 { simrt.QuietBegin(); v := p.Load(); simrt.QuietEnd(); return v }
+
+//go:norace
+func qa64(p *atomic.Int64, d int64) int64 {
+	simrt.QuietBegin()
+	v := p.Add(d)
+	simrt.QuietEnd()
+	return v
+}
+
+// OnceFunc, OnceValue and OnceValues mirror the sync helpers on top of the sim-aware Once.
+func OnceFunc(f func()) func() {
+	var o Once
+	return func() { o.Do(f) }
+}
+
+func OnceValue[T any](f func() T) func() T {
+	var o Once
+	var v T
+	return func() T { o.Do(func() { v = f() }); return v }
+}
+
+func OnceValues[T1, T2 any](f func() (T1, T2)) func() (T1, T2) {
+	var o Once
+	var a T1
+	var b T2
+	return func() (T1, T2) { o.Do(func() { a, b = f() }); return a, b }
+}
